@@ -2,6 +2,7 @@ package validators
 
 import (
 	"fmt"
+	"go/types"
 	"slices"
 	"strings"
 
@@ -192,6 +193,10 @@ func (v ReceiverValidator) validateNonBodyParam(
 	isAnEnum := param.Type.SymbolKind == common.SymKindEnum
 
 	isAnAlias, isAPrimitiveAlias := isPrimitiveAlias(param)
+	if isAnAlias && isAPrimitiveAlias && !v.isDefinedOverABasicType(param) {
+		// e.g. 'type Filter SomeStruct' - named like an alias, but there's no primitive underneath to parse a string into
+		isAPrimitiveAlias = false
+	}
 
 	if (param.Type.IsUniverseType() || isAnEnum || (isAnAlias && isAPrimitiveAlias)) && !isErrType && !isMapType {
 		return nil
@@ -421,6 +426,27 @@ func getParamSchemaNameOrFallback(param metadata.FuncParam, fallback string) str
 		return fallback
 	}
 	return nameInSchema
+}
+
+// isDefinedOverABasicType reports whether the underlying type of the declared type used by the parameter is a Go basic
+// type (string, bool, numbers). When the declaration cannot be looked up, the answer is yes - same as before this check existed.
+func (v ReceiverValidator) isDefinedOverABasicType(param metadata.FuncParam) bool {
+	if v.packagesFacade == nil || param.Type.PkgPath == "" {
+		return true
+	}
+
+	pkg, err := v.packagesFacade.GetPackage(param.Type.PkgPath)
+	if err != nil || pkg == nil || pkg.Types == nil {
+		return true
+	}
+
+	obj := pkg.Types.Scope().Lookup(param.Type.Name)
+	if obj == nil || obj.Type() == nil {
+		return true
+	}
+
+	_, isBasic := obj.Type().Underlying().(*types.Basic)
+	return isBasic
 }
 
 func isPrimitiveAlias(param metadata.FuncParam) (bool, bool) {
